@@ -189,15 +189,15 @@ def _build_props(pid, meta, log, jobs, files):
     # the model and the verdict machinery are built first and separately, so the model still runs
     # (for the failing-input search) when a proof is broken
     model_vo = meta["model_module"].replace(".", "/") + ".vo"
-    rc0, out0 = sh("timeout 600 make -j%d Base/Verdict.vo %s" % (jobs, model_vo), cwd=COQ, timeout=630)
+    rc0, out0 = sh("timeout 1800 make -j%d Base/Verdict.vo %s" % (jobs, model_vo), cwd=COQ, timeout=1830)
     if rc0 != 0:
         r["reason"] = "model does not compile"
         r["error"] = out0[-1500:]
         return r
-    cmd = "timeout %d make -j%d %s" % (meta.get("coq_timeout", 900), jobs, target)
+    cmd = "timeout %d make -j%d %s" % (meta.get("coq_timeout", 2400), jobs, target)
     r["checker_cmd"] = "cd /verif/coq && coq_makefile -f _CoqProject -o Makefile && " + cmd
     t0 = time.time()
-    rc, out = sh(cmd, cwd=COQ, timeout=meta.get("coq_timeout", 900) + 30)
+    rc, out = sh(cmd, cwd=COQ, timeout=meta.get("coq_timeout", 2400) + 30)
     log.append("make %s rc=%d (%.1fs)" % (target, rc, time.time() - t0))
     r["output_tail"] = out[-3000:]
     src = strip_comments(open(vfile).read())
@@ -250,7 +250,7 @@ def build_harness(pid, log):
             shutil.copyfile(os.path.join(REPO, "Cargo.lock"), os.path.join(HARNESS, "Cargo.lock"))
     except FileNotFoundError:
         shutil.copyfile(os.path.join(REPO, "Cargo.lock"), os.path.join(HARNESS, "Cargo.lock"))
-    rc, out = sh("cargo build --offline -q %s --bin %s 2>&1" % (cargo_cfg(), pid.lower()), cwd=HARNESS, timeout=1500)
+    rc, out = sh("cargo build --offline -q %s --bin %s 2>&1" % (cargo_cfg(), pid.lower()), cwd=HARNESS, timeout=3600)
     out = "\n".join(l for l in out.split("\n") if "unused" not in l)
     m = re.search(r"^error.*(?:\n.*){0,12}", out, re.M)
     if m:
@@ -270,7 +270,7 @@ def parse_case_lines(text):
     return cases
 
 
-def run_harness(pid, seed, n, tier, ids=None, timeout=1500):
+def run_harness(pid, seed, n, tier, ids=None, timeout=3000):
     cmd = [os.path.join(TARGET, "debug", pid.lower()), "--seed", str(seed), "--n", str(n), "--tier", tier]
     if ids:
         cmd += ["--ids", ids]
@@ -294,7 +294,11 @@ def eval_shard(args):
     body.append("Print vs.")
     with open(path, "w") as f:
         f.write("\n".join(body) + "\n")
-    rc, out = sh("timeout 900 coqc -noglob -Q . OV Cases/%s.v" % name, cwd=COQ, timeout=930)
+    # the time limits are generous on purpose: they only guard against a hung process; a busy machine
+    # must not turn into an alarm (a shard that ran out of time is tried once more, alone)
+    rc, out = sh("timeout 1800 coqc -noglob -Q . OV Cases/%s.v" % name, cwd=COQ, timeout=1830)
+    if rc == 124:
+        rc, out = sh("timeout 3600 coqc -noglob -Q . OV Cases/%s.v" % name, cwd=COQ, timeout=3630)
     res = {"rc": rc, "out": out, "verdicts": [], "outs": {}}
     if rc != 0:
         return res
@@ -383,7 +387,7 @@ def main():
     coqchk = None
     if tier == "thorough" and pr["ok"] and not a.replay:
         t1 = time.time()
-        rc, out = sh("timeout 1500 coqchk -silent -o -Q . OV OV.Props.%s" % pid, cwd=COQ, timeout=1530)
+        rc, out = sh("timeout 3000 coqchk -silent -o -Q . OV OV.Props.%s" % pid, cwd=COQ, timeout=3030)
         m = re.search(r"\* Axioms:(.*?)\n\s*\n\* Constants/Inductives relying on type-in-type:(.*?)\n\s*\n\* Constants/Inductives relying on unsafe \(co\)fixpoints:(.*?)\n\s*\n\* Inductives whose positivity is assumed:(.*?)\n", out, re.S)
         coqchk = {"rc": rc, "wall_s": round(time.time() - t1, 1)}
         if rc != 0 or not m:
